@@ -16,7 +16,6 @@ import (
 	"encoding/json"
 	"fmt"
 	"io"
-	"strings"
 
 	"go.uber.org/zap"
 	"go.uber.org/zap/zapcore"
@@ -30,7 +29,7 @@ type seqEnt struct {
 	fsx    []SX
 }
 
-func (cs *coreSpec) buildSeq(cfg *encCfg, entry *int, events *[]SX) zapcore.Core {
+func (cs *coreSpec) buildSeq(cfg *encCfg, env *c10env) zapcore.Core {
 	switch cs.kind {
 	case 0:
 		var enc zapcore.Encoder
@@ -39,31 +38,39 @@ func (cs *coreSpec) buildSeq(cfg *encCfg, entry *int, events *[]SX) zapcore.Core
 		} else {
 			enc = zapcore.NewJSONEncoder(cfg.real())
 		}
-		sink := &recSink{id: cs.id, outs: cs.outs, entry: entry, events: events, bytes: true}
+		var nestFor func(id int) zapcore.Core
 		if cs.nest {
-			nenc := zapcore.NewJSONEncoder(zapcore.EncoderConfig{MessageKey: "m"})
-			if cs.id%2 == 1 {
-				nenc = zapcore.NewConsoleEncoder(zapcore.EncoderConfig{MessageKey: "m"})
+			nestFor = func(id int) zapcore.Core {
+				nenc := zapcore.NewJSONEncoder(zapcore.EncoderConfig{MessageKey: "m"})
+				if id%2 == 1 {
+					nenc = zapcore.NewConsoleEncoder(zapcore.EncoderConfig{MessageKey: "m"})
+				}
+				return zapcore.NewCore(nenc, zapcore.AddSync(io.Discard), zapcore.Level(-128))
 			}
-			sink.nest = zapcore.NewCore(nenc, zapcore.AddSync(io.Discard), zapcore.Level(-128))
 		}
-		return zapcore.NewCore(enc, sink, zapcore.Level(-128))
+		return zapcore.NewCore(enc, cs.leafWS().build(env, nestFor), zapcore.Level(-128))
 	case 1:
 		var cores []zapcore.Core
 		for _, s := range cs.subs {
-			cores = append(cores, s.buildSeq(cfg, entry, events))
+			cores = append(cores, s.buildSeq(cfg, env))
 		}
 		return zapcore.NewTee(cores...)
 	default:
-		return fwdCore{cs.subs[0].buildSeq(cfg, entry, events)}
+		return fwdCore{cs.subs[0].buildSeq(cfg, env)}
 	}
 }
 
 func (cs *coreSpec) hasFault(n int) bool {
-	for k, o := range cs.outs {
-		if k < n && o.kind != 0 {
-			return true
-		}
+	if cs.kind == 0 {
+		found := false
+		cs.leafWS().walk(func(w *c10wsSpec) {
+			for k, o := range w.outs {
+				if k < n && o.kind != 0 {
+					found = true
+				}
+			}
+		})
+		return found
 	}
 	for _, s := range cs.subs {
 		if s.hasFault(n) {
@@ -72,23 +79,11 @@ func (cs *coreSpec) hasFault(n int) bool {
 	}
 	return false
 }
-func (cs *coreSpec) syncFaultAt(k int) bool {
-	if cs.kind == 0 && k < len(cs.outs) && cs.outs[k].kind == 4 {
-		return true
-	}
-	for _, s := range cs.subs {
-		if s.syncFaultAt(k) {
-			return true
-		}
-	}
-	return false
-}
 
 func c10seq(c *Ctx, cfg *encCfg, ctxs [][]zapcore.Field, ctxx []SX, cs *coreSpec, ents []seqEnt, class string) {
-	entry := 0
-	var events []SX
+	env := newC10env(true)
 	eo := &errOut{}
-	cores := []zapcore.Core{cs.buildSeq(cfg, &entry, &events)}
+	cores := []zapcore.Core{cs.buildSeq(cfg, env)}
 	withPanicked := false
 	for _, fs := range ctxs {
 		func() {
@@ -105,61 +100,49 @@ func c10seq(c *Ctx, cfg *encCfg, ctxs [][]zapcore.Field, ctxx []SX, cs *coreSpec
 		}
 	}
 	var per, entx []SX
-	returned := true
-	kf := false
+	for _, e := range ents {
+		entx = append(entx, L(Bool(e.ent.Level > zapcore.ErrorLevel), I(e.d), e.entx, L(e.fsx...)))
+	}
+	input := L(I(2), cfg.sx(), L(ctxx...), cs.sx(), L(entx...))
+	ret := 1
 	for k, e := range ents {
-		hi := e.ent.Level > zapcore.ErrorLevel
-		x := L(Bool(hi), I(e.d), e.entx, L(e.fsx...))
-		entx = append(entx, x)
-		if hi && cs.syncFaultAt(k) {
-			kf = true
-		}
-		entry = k
-		events = nil
+		env.begin(k)
 		eo.Reset()
-		func() {
-			defer func() {
-				if p := recover(); p != nil {
-					returned = false
-					c.Viol(fmt.Sprintf("writing entry %d of a sequence to a tree of cores with failing sinks panicked: %v", k, p),
-						L(I(2), cfg.sx(), L(ctxx...), cs.sx(), L(entx...)))
-				}
-			}()
-			// what Logger.Check/Write do, with the generated Entry (caller, stack, any level) kept as it is
+		// what Logger.Check/Write do, with the generated Entry (caller, stack, any level) kept as it is;
+		// under the watchdog: a call that does not return is observed as blocked
+		st, pmsg := c10guard(func() {
 			if ce := cores[e.d].Check(e.ent, nil); ce != nil {
 				ce.ErrorOutput = eo
 				ce.Write(e.fields...)
 			}
-		}()
-		lines := strings.Split(strings.TrimSuffix(eo.String(), "\n"), "\n")
-		if eo.Len() == 0 {
-			lines = nil
+		})
+		if st == 2 {
+			ret = 2
+			c10blocked(c, fmt.Sprintf("writing entry %d of a sequence to a tree of cores did not return (blocked) after an earlier sink failure", k), input)
+			per = append(per, L(L(env.snapshot()...), L(), I(0)))
+			env.abandon()
+			break
 		}
-		var msgs []SX
-		for _, ln := range lines {
-			i := strings.Index(ln, " write error: ")
-			if i < 0 {
-				msgs = append(msgs, Str("?"+ln))
-				continue
-			}
-			for _, m := range strings.Split(ln[i+len(" write error: "):], "; ") {
-				msgs = append(msgs, Str(m))
-			}
+		if st == 0 {
+			ret = 0
+			c.Viol(fmt.Sprintf("writing entry %d of a sequence to a tree of cores with failing sinks panicked: %v", k, pmsg), input)
 		}
-		per = append(per, L(L(events...), L(msgs...), I(len(lines))))
+		msgs, nl := errOutSX(eo)
+		per = append(per, L(L(env.snapshot()...), msgs, I(nl)))
+	}
+	syncFailed := env.syncFail // (before Stop/Close sync the sinks once more)
+	if !env.cleanup() && ret == 1 {
+		ret = 2
+		c10blocked(c, "stopping/closing the WriteSyncers after a sequence with sink failures did not return (blocked): a combinator was left locked", input)
 	}
 	meta := map[string]string{"class": class, "nt": "0"}
 	if cs.hasFault(len(ents)) {
 		meta["nt"] = "1"
 	}
-	if kf {
+	if syncFailed {
 		meta["kf"] = "iocore-sync-error-ignored"
 	}
-	ret := 0
-	if returned {
-		ret = 1
-	}
-	c.Emit(L(I(2), cfg.sx(), L(ctxx...), cs.sx(), L(entx...)), L(L(per...), I(ret)), meta)
+	c.Emit(input, L(L(per...), I(ret)), meta)
 }
 
 type seqPayload struct {
@@ -287,6 +270,44 @@ func c10sequences(c *Ctx, r *RNG) {
 		}
 	}
 
+	// ---- directed, over zap's WriteSyncer combinators: the failing sink behind every combinator shape,
+	// at a position of a tee of 2-3 cores (the healthy cores behind combinators as well), failing once /
+	// now and then / for good, and six full entries so that several entries follow each failure: every
+	// later call must return, and every sink that works must receive every entry, intact ----
+	nshape := len(c10wsShapes())
+	for si := 0; si < nshape; si++ {
+		for pi := range c10failPatterns {
+			for v := 0; v < 10; v++ { // (nleaf, bad) x failing outcome
+				if !c.Thorough && v != (si+2*pi)%10 && v != (3*si+pi+5)%10 {
+					continue // quick: two of the ten placements per (shape, pattern), rotating
+				}
+				nleaf, bad := 2+(v%5)/2, (v%5)%2
+				if v%5 == 4 {
+					nleaf, bad = 3, 2
+				}
+				fail := 1 + v/5
+				rr := r.Fork()
+				cfg := prodCfg(rr)
+				if (si+pi)%3 == 1 {
+					cfg = genCfg(rr)
+				}
+				g := &genState{r: rr, cfg: cfg, size: 10}
+				n := 6
+				cs := c10wsTee(nleaf, bad, si, pi, fail, n, true)
+				for i, lf := range cs.subs {
+					lf.nest = (pi+i)%3 == 0
+					lf.con = (si+v+i)%2 == 0 && !lf.buffered()
+				}
+				pat := patterns[(si+pi+v)%len(patterns)]
+				var ents []seqEnt
+				for k := 0; k < n; k++ {
+					ents = append(ents, shapedEnt(g, pat[k%len(pat)], k))
+				}
+				c10seq(c, cfg, nil, nil, cs, ents, "seqws")
+			}
+		}
+	}
+
 	// ---- random: trees of tees and forwarding wrappers over JSON and console leaves, With chains,
 	// sequences of 1-6 entries with per-entry sink outcomes ----
 	nrand := 600
@@ -307,21 +328,41 @@ func c10sequences(c *Ctx, r *RNG) {
 			nent = rr.Range(7, 14)
 		}
 		failp := []int{15, 45, 80}[rr.Intn(3)]
+		wrapped := i%2 == 1 // half of the trees: leaves over combinators, at least 3 entries
+		if wrapped && nent < 3 {
+			nent = rr.Range(3, 6)
+		}
 		id := 0
 		var gen func(depth int) *coreSpec
 		gen = func(depth int) *coreSpec {
 			k := rr.Intn(10)
 			if depth <= 0 || k < 5 {
-				cs := &coreSpec{kind: 0, id: id, seq: true, con: rr.Chance(40), nest: rr.Chance(30)}
-				id++
-				sticky := rr.Chance(25) // a sink that is broken for good
-				for e := 0; e < nent; e++ {
-					o := 0
-					if sticky || rr.Chance(failp) {
-						o = rr.Range(1, 3) // sync failures: exhaustive in (b); here they would only hide behind the known finding
+				outs := func(underBuf bool) []sinkOutcome {
+					var os []sinkOutcome
+					sticky := rr.Chance(25) // a sink that is broken for good
+					for e := 0; e < nent; e++ {
+						o := 0
+						if sticky || rr.Chance(failp) {
+							o = rr.Range(1, 3) // sync failures: exhaustive in (b); here they would only hide behind the known finding
+							if underBuf && o == 3 {
+								o = 2
+							}
+						}
+						os = append(os, sinkOutcome{kind: o})
 					}
-					cs.outs = append(cs.outs, sinkOutcome{kind: o})
+					return os
 				}
+				cs := &coreSpec{kind: 0, seq: true, con: rr.Chance(40), nest: rr.Chance(30)}
+				if wrapped && rr.Chance(70) { // the sink(s) behind a random stack of zap's combinators
+					cs.ws = (&c10wsGen{r: rr, id: &id, outs: outs}).gen(3, false)
+					if cs.buffered() {
+						cs.con = false
+					}
+					return cs
+				}
+				cs.id = id
+				id++
+				cs.outs = outs(false)
 				return cs
 			}
 			if k < 8 {
@@ -374,6 +415,10 @@ func c10sequences(c *Ctx, r *RNG) {
 			}
 			ents = append(ents, se)
 		}
-		c10seq(c, cfg, ctxs, ctxx, cs, ents, "seqrand")
+		class := "seqrand"
+		if wrapped {
+			class = "seqwsrand"
+		}
+		c10seq(c, cfg, ctxs, ctxx, cs, ents, class)
 	}
 }
